@@ -3,7 +3,8 @@ import Driver.Proto
 namespace Driver.C12
 open ArrModel Driver
 
-def handle (op : String) (args : List String) : Option String :=
+/-- one call -/
+def handle1 (op : String) (args : List String) : Option String :=
   match op, args with
   | "flip", [a, ax] => do
     let a ← parseArr? a; let ax ← parseOpt? parseIntList? ax
@@ -17,6 +18,35 @@ def handle (op : String) (args : List String) : Option String :=
     let a ← parseArr? a; let k ← parseNat? k; let ax ← parseIntList? ax
     some (showRes showArr (a.rot90 0 k ax))
   | _, _ => none
+
+/-- the token list cut at every separator token -/
+def splitTok (sep : String) : List String → List (List String)
+  | [] => [[]]
+  | x :: xs =>
+    match splitTok sep xs with
+    | [] => [[x]]
+    | g :: gs => if x == sep then [] :: g :: gs else (x :: g) :: gs
+
+/-- spellings added for the robustness streams (part 2); every compared answer still comes from `handle1`, i.e. from the very
+model definitions:
+* `n call…` — huge arrays on which the list-backed model is too slow (the transposition behind an odd quarter turn is quadratic:
+  66 s for [300,300]): the driver answers `ok native` and the harness judges the crate by its native coordinate-formula
+  reference, which it compares with the full answer of `handle1` on every other case of the same run (`oracle_report` lines);
+* `seq call / call / …` — several calls executed one after the other on the same thread (hidden-state streams: colliding shapes
+  back to back, A–B–A, a refused call followed by a valid one); the model is a function, so every call is answered on its own. -/
+def handleOne (op : String) (args : List String) : Option String :=
+  match op, args with
+  | "n", _ :: _ => some "ok native"
+  | "oracle_report", _ => some "ok report"
+  | _, _ => handle1 op args
+
+def handle (op : String) (args : List String) : Option String :=
+  match op, args with
+  | "seq", _ => do
+    let parts := splitTok "/" args
+    let answers ← parts.mapM (fun p => match p with | o :: as => handleOne o as | [] => none)
+    some (" / ".intercalate answers)
+  | _, _ => handleOne op args
 
 end Driver.C12
 
